@@ -66,10 +66,17 @@ EXPRS = [
     "${b} > 3 and ${a} = 'x'", "a < b", "coalesce(${a}, \"z\")", " ${a} ", "${a}${b}", "if(${b} &gt; 1, 'x', 'y')",
     "string-length(${a}) > 0", "é${a}",
 ]
-DATASETS_OK = ["trees", "t-1", "Trees_2", "_x", "a:b", "é"]
-DATASETS_BAD = ["__trees", "a.b", "1t", "a b", "-x", "__", ".", "a:b:c", "t!", "tree s", "a..", ":a"]
-PROPS_OK = ["pa", "p_b", "P-1", "x.y", "a:b", "nam", "names", "labels", "_x", "é"]
-PROPS_BAD = ["name", "label", "Name", "LABEL", "nAmE", "__x", "__", "1abc", "a b", "-p", "p!", "a:b:c", "__name"]
+DATASETS_OK = ["trees", "t-1", "Trees_2", "_x", "a:b", "é",
+               # vocabulary of the NEIGHBOURING rule (reserved *property* names are fine as list names), `__` not as a
+               # prefix, dashes / underscores at the allowed boundaries
+               "name", "label", "Name", "Label", "NAME", "LABEL", "nAmE", "_name", "a__b", "x__", "_", "a-", "a-b-", "_-"]
+DATASETS_BAD = ["__trees", "a.b", "1t", "a b", "-x", "__", ".", "a:b:c", "t!", "tree s", "a..", ":a",
+                "name.", ".name", "__name", "__label", "label.x", "-name", "a.-", "_.", "n.ame"]
+PROPS_OK = ["pa", "p_b", "P-1", "x.y", "a:b", "nam", "names", "labels", "_x", "é",
+            # vocabulary of the dataset rule (periods are fine in property names), column names of the entities sheet
+            "trees", "t-1", "a.", "x..y", "_.", "a-", "dataset", "list_name", "entity_id", "create_if", "a__b", "x__"]
+PROPS_BAD = ["name", "label", "Name", "LABEL", "nAmE", "__x", "__", "1abc", "a b", "-p", "p!", "a:b:c", "__name",
+             ".a", "-a", "__label", "__Name", "na me", "LaBeL"]
 HEADERS = {
     "dataset": ["dataset", "list_name", "list name", "List_Name", "DATASET", "Dataset"],
     "entity_id": ["entity_id", "Entity_ID", "entity id"],
